@@ -11,6 +11,7 @@ initial bootstrap:
   P <i> <k> part <verdict> <orph> <rr>        … and a partial data-file write of step k+1
   C <i> <k> <c> <verdict> <orph> <rr>         … and c complete records of the append of step k+1
   T <i> <k> <verdict>                         … and a torn record
+  K <i> <continuation from the pre-state> ## <… from the post-state>   (compaction / DROP only)
   L <i> same|lost                             the acknowledged state after statement i, with the last (un-fsynced) rename lost
 verdict ::= pre | post | pre=post | other | open-fails:<reason>
 orph ::= 0 | 1   (an unreferenced delete-vector file survives recovery)
@@ -104,6 +105,41 @@ def recrash (d : Disk) (r : Except String State) : String :=
         | .error _ => false) then "same" else "diff"
   | _, _ => "-"
 
+def dumpStr (s : State) : String :=
+  ";".intercalate ((sortRows (abs s.disk s.mem)).map fun (n, rows) =>
+    s!"{n}=[{"|".intercalate (rows.map fun r => ",".intercalate (r.map toString))}]")
+
+/-- The continuation the harness runs after recovering a crash image inside a compaction / DROP:
+reopen, reopen again, INSERT, DELETE, reopen, DROP, reopen — a dump after every step. -/
+def contSeq (s : State) : String :=
+  let reopen (x : State) : Option State := match recover x.disk with | .ok y => some y | .error _ => none
+  match reopen s with
+  | none => "open1:err:"
+  | some s1 =>
+    let t? := (sortRows (abs s1.disk s1.mem)).head?.map (·.1)
+    match reopen s1 with
+    | none => s!"open1:ok:{dumpStr s1} / open2:err:"
+    | some s2 =>
+      match t? with
+      | none =>
+        match reopen s2 with
+        | none => s!"open1:ok:{dumpStr s1} / open2:ok:{dumpStr s2} / open3:err:"
+        | some s3 =>
+          match reopen s3 with
+          | none => s!"open1:ok:{dumpStr s1} / open2:ok:{dumpStr s2} / open3:ok:{dumpStr s3} / open4:err:"
+          | some s4 => s!"open1:ok:{dumpStr s1} / open2:ok:{dumpStr s2} / open3:ok:{dumpStr s3} / open4:ok:{dumpStr s4}"
+      | some t =>
+        let s3 := step s2 (.insert t [[9001, 1], [9002, 2]])
+        let s4 := step s3 (.delete t .eq 9001)
+        match reopen s4 with
+        | none => s!"open1:ok:{dumpStr s1} / open2:ok:{dumpStr s2} / insert:ok:{dumpStr s3} / delete:ok:{dumpStr s4} / open3:err:"
+        | some s5 =>
+          let s6 := step s5 (.drop t)
+          let tail := match reopen s6 with
+            | none => "open4:err:"
+            | some s7 => s!"open4:ok:{dumpStr s7}"
+          s!"open1:ok:{dumpStr s1} / open2:ok:{dumpStr s2} / insert:ok:{dumpStr s3} / delete:ok:{dumpStr s4} / open3:ok:{dumpStr s5} / drop:ok:{dumpStr s6} / {tail}"
+
 def line (tag : String) (i : Int) (k : Nat) (extra : String) (pre : Option AbsT) (post : AbsT) (d : Disk) : String :=
   let r := recover d
   s!"{tag} {i} {k} {extra}{verdictOf pre post r} {orphStr r} {recrash d r}"
@@ -142,7 +178,11 @@ def answer (lineIn : String) : List String :=
               | .error e => s!"open-fails:{e}"
             [s!"S {i} {";".intercalate (steps.map stepStr)}"] ++
               crashLines i s.disk steps (some (abs s.disk s.mem)) (abs s'.disk s'.mem) ++
-              [s!"L {i} {lost}"] ++ go s' (i + 1) rest
+              [s!"L {i} {lost}"] ++
+              (match op with
+                | .compact _ | .drop _ => [s!"K {i} {contSeq s} ## {contSeq s'}"]
+                | _ => []) ++
+              go s' (i + 1) rest
         first ++ go s0 0 ops ++ ["E"]
   | _ => ["bad-request", "E"]
 
